@@ -132,9 +132,12 @@ def run(ctx):
                 if bt:
                     a_, b_ = lo, hi
                 else:
-                    a_, b_ = np.full(d, -14.0), np.full(d, 15.0)
+                    # window from exact draws: untrained flows can have scale ~10 (a fixed window lost 11% of the mass: false alarm, seed 2)
+                    xw = np.asarray(nsutil.to_list(f_.sample_and_log_prob(4000)[0]), float).reshape(-1, d)
+                    sdw = xw.std(axis=0) + 1e-3
+                    a_, b_ = xw.min(axis=0) - 4 * sdw, xw.max(axis=0) + 4 * sdw
                 try:
-                    I = quad_1d(logp, a_[0], b_[0], 4001 if bt else 12001, bounded=bool(bt)) if d == 1 else \
+                    I = quad_1d(logp, a_[0], b_[0], 4001 if bt else 24001, bounded=bool(bt)) if d == 1 else \
                         quad_2d(logp, a_, b_, 201 if bt else 401, bounded=bool(bt))
                     # mass the flow puts inside the clip margin (estimated from exact draws): there the clipped density is
                     # not the push-forward, so the interior integral is 1 - (that mass)
